@@ -24,7 +24,7 @@ def counts(pid):
 
 
 # census rules whose instance count is a number of call sites that a helper function can legitimately collapse
-FIXED = {'C06-R3': 2, 'C16-R3': 3, 'C19-R4': 1, 'C09-R4': 8}
+FIXED = {'C06-R3': 2, 'C16-R3': 3, 'C19-R4': 1, 'C09-R4': 8, 'C08-R3': 1, 'C06-R2': 2, 'C06-R1': 3}
 pids = [f'C{i:02d}' for i in range(1, 21)]
 with ThreadPoolExecutor(8) as ex:
     allc = dict(zip(pids, ex.map(counts, pids)))
@@ -32,7 +32,8 @@ for pid in pids:
     p = os.path.join(VERIF, 'sa', 'props', pid.lower() + '.py')
     s = open(p).read()
     for rid, n in allc[pid].items():
-        new = FIXED.get(rid, max(1, n // 4))
+        # small census rules (a few dozen sites) lose a large share of their sites to one helper extraction: a sixth is enough there
+        new = FIXED.get(rid, max(1, n // 4) if n >= 40 else max(1, n // 6))
         pat = re.compile(r"(report\.rule\(\s*'" + re.escape(rid) + r"'.*?floor=)(\d+)", re.S)
         m = pat.search(s)
         if not m:
